@@ -1,9 +1,3 @@
 package main
 
-import "strings"
-
 func runLemmas(w *World, o *Options, workDir string) []*Obligation { return nil }
-func tryReplay(w *World, o *Options, ob *Obligation, base string, b *strings.Builder) (string, bool) {
-	return "", false
-}
-func runReplay(o *Options, args []string) int { return 0 }
